@@ -24,6 +24,7 @@ type Clause struct {
 }
 
 type LoopSpec struct {
+	Steps      []*Clause // stepping stones proved at each back edge (may use prev(x)), then usable by the invariants
 	Defines    []*Clause // definitional axioms for ghost functions over the loop's data (conservative extensions; listed)
 	Invariants []*Clause
 	Decreases  *Clause
@@ -63,6 +64,7 @@ type GhostFunc struct {
 	Result  string
 	Body    string // "" → uninterpreted
 	Opaque  bool   // body given as a quantified definitional axiom with a trigger instead of a macro
+	Rec     bool   // recursive definition (define-fun-rec)
 	PkgPath string
 }
 
@@ -78,6 +80,7 @@ type Specs struct {
 	GhostFuncs map[string]*GhostFunc
 	GhostOrder []string
 	Axioms     []*Axiom
+	GlobalFacts []*Axiom                    // facts about immutable package variables, assumed at every function entry
 	Aliases    map[string]map[string]string // package path → alias → import path
 	EffectFree []*regexp.Regexp // name patterns of functions treated as effect-free with havocked results
 	Errors     []string
@@ -118,7 +121,7 @@ func qualify(name, pkgPath string) string {
 			star = "*"
 			recv = recv[1:]
 		}
-		if !strings.Contains(recv, ".") {
+		if !strings.Contains(recv, ".") && recv != "error" {
 			recv = pkgPath + "." + recv
 		}
 		return "(" + star + recv + ")" + name[end+1:]
@@ -287,6 +290,8 @@ func (sp *Specs) parseFile(f *ast.File, fset *token.FileSet, pkgPath string) {
 			switch parts[1] {
 			case "invariant":
 				ls.Invariants = append(ls.Invariants, parseClause(parts[2], l.file, l.line, autoLabel(fmt.Sprintf("loop%d.inv", n))))
+			case "step":
+				ls.Steps = append(ls.Steps, parseClause(parts[2], l.file, l.line, autoLabel(fmt.Sprintf("loop%d.step", n))))
 			case "define":
 				ls.Defines = append(ls.Defines, parseClause(parts[2], l.file, l.line, autoLabel(fmt.Sprintf("loop%d.def", n))))
 			case "decreases":
@@ -356,6 +361,10 @@ func (sp *Specs) parseFile(f *ast.File, fset *token.FileSet, pkgPath string) {
 				sp.Aliases[pkgPath] = map[string]string{}
 			}
 			sp.Aliases[pkgPath][fs[0]] = strings.ReplaceAll(fs[1], "@/", modulePath+"/")
+		case "globalfact":
+			cur = nil
+			c := parseClause(rest, l.file, l.line, fmt.Sprintf("globalfact%d", len(sp.GlobalFacts)))
+			sp.GlobalFacts = append(sp.GlobalFacts, &Axiom{Label: c.Label, Text: c.Text, PkgPath: pkgPath})
 		case "effectfree":
 			cur = nil
 			for _, pat := range strings.Fields(rest) {
@@ -374,7 +383,7 @@ func (sp *Specs) parseFile(f *ast.File, fset *token.FileSet, pkgPath string) {
 	}
 }
 
-var ghostFuncRe = regexp.MustCompile(`^(?:opaque\s+)?func\s+([A-Za-z_][A-Za-z0-9_]*)\s*\(([^)]*)\)\s*([a-z]+)\s*(=\s*(.*))?$`)
+var ghostFuncRe = regexp.MustCompile(`^(?:opaque\s+|rec\s+)?func\s+([A-Za-z_][A-Za-z0-9_]*)\s*\(([^)]*)\)\s*([a-z]+)\s*(=\s*(.*))?$`)
 var ghostVarRe = regexp.MustCompile(`^var\s+([A-Za-z_][A-Za-z0-9_]*)\s+([a-z]+)$`)
 
 func (sp *Specs) parseGhost(rest, file string, line int, pkgPath string) {
@@ -383,7 +392,7 @@ func (sp *Specs) parseGhost(rest, file string, line int, pkgPath string) {
 		return
 	}
 	if m := ghostFuncRe.FindStringSubmatch(rest); m != nil {
-		gf := &GhostFunc{Name: m[1], Result: m[3], Body: strings.TrimSpace(m[5]), PkgPath: pkgPath, Opaque: strings.HasPrefix(rest, "opaque")}
+		gf := &GhostFunc{Name: m[1], Result: m[3], Body: strings.TrimSpace(m[5]), PkgPath: pkgPath, Opaque: strings.HasPrefix(rest, "opaque"), Rec: strings.HasPrefix(rest, "rec")}
 		if strings.TrimSpace(m[2]) != "" {
 			for _, p := range strings.Split(m[2], ",") {
 				fs := strings.Fields(p)
